@@ -10,6 +10,13 @@ scenario's own clean-up (blocks, descriptors, mappings, IPC names, TLS keys).
 
   crash / sanitizer report / blocks outstanding / double close   -> VIOLATION, replay `scen NAME MODE K`,
                                                                      signature <function>@alloc<k>
+  an object that existed before a call reads back differently    -> VIOLATION (outcome class X): after every call line the harness
+  after it, an IPC name of a live object has gone, a container      reads every slot object back through the public getters (lists, trees,
+  contradicts itself                                                hash tables, INI files, errors, strings, socket addresses, sockets,
+                                                                     shm contents, shm buffers, mappings, /dev/shm names) and compares
+                                                                     with the state before the call; only the changes the call is allowed
+                                                                     to make with the outcome it reported are accepted
+Scenarios also script failures of system calls (socket, fcntl(F_SETFL), sem_open, shm_open, ftruncate, mmap, dlopen, pthread_*).
   trace or outcome differs from the model, C itself clean        -> correspondence break (a missing
                                                                      allocation site in the model shows here)
 Thorough adds the long scenarios and random failure subsets (bit masks)."""
@@ -256,10 +263,12 @@ def body(chk, exe, scratch, proof_ok, detail):
     chk.cov["outcome_classes"] = worst
     chk.cov["rule"] = ("every scenario x every allocation index k x {k fails once, every allocation from k on fails} (complete), "
                        "plus the run without failure; thorough adds long scenarios and random failure masks. "
+                       "After every call of every run the contents of all live objects are read back and compared with the state before the call. "
                        "A case is one (scenario, mode, k); it is non-trivial when an allocation was actually refused in it.")
     chk.assumptions += ["the tracking allocator is installed through p_mem_set_vtable: allocations that bypass the table (libc internals of fopen, opendir, dlopen, getaddrinfo, sem_open) are not failed",
                         "x86-64 Linux, POSIX back-ends as configured; prwlock-general.c is compiled next to the configured rwlock under renamed symbols",
                         "threads are held at their start until the creating call has returned (deterministic order of allocator calls)",
+                        "value-level probes: objects without an allocation-free or transparent getter are opaque (locks, semaphores, threads, loaders, TLS keys; crypto hashes are probed by the explicit hash_check call)",
                         "the model has the repaired p_shm_free (finding F5 is judged by C07/C20): the leftover mapping of %s is not counted here" % "/".join(F5_SCENARIOS)]
     return resfam.finish(chk)
 
